@@ -72,7 +72,7 @@ def run_harness(binp, inputs):
     if rc != 0 or not lines or lines[0] != "ascii-ok":
         raise RuntimeError("harness c19 failed rc=%s: %s" % (rc, out[-1500:]))
     rows = [l.split("\t") for l in lines[1:] if l]
-    if len(rows) != len(inputs) or any(len(r) != 9 for r in rows):
+    if len(rows) != len(inputs) or any(len(r) != 10 for r in rows):
         raise RuntimeError("harness c19: %d result lines for %d inputs" % (len(rows), len(inputs)))
     return rows
 
@@ -128,9 +128,9 @@ def run(ctx):
     for (origin, var, b), r in zip(cases, rows):
         st = stc[r[0].split(" ")[0]]
         if st == 0:
-            term = "(0, %s, %s, %s, %s, %s)" % (r[2], r[3], r[5], r[6], r[7])
+            term = "(0, %s, %s, %s, %s, %s, %s)" % (r[2], r[3], r[5], r[6], r[7], r[9])
         else:
-            term = "(%d, [], XLexPanic, [], XLexPanic, 0)" % st
+            term = "(%d, [], %s, [], XLexPanic, 0, %s)" % (st, r[3], r[9])
         items.append((len(b) + 50, term))
     nsh = NCPU
     order = sorted(range(len(items)), key=lambda i: -items[i][0])
@@ -142,7 +142,7 @@ def run(ctx):
         defs = "\n".join("Definition c%d : case := %s." % (j, items[i][1]) for j, i in enumerate(assign[k]))
         shards.append("%s\nEval vm_compute in (judge_all [%s])." % (defs, ";".join("c%d" % j for j in range(len(assign[k])))))
     try:
-        res = coq.run_cases(ctx, "c19", "From Coq Require Import Uint63.\nFrom SwayV Require Import Base.Util C16.Model C16.Judge C19.Model C19.Spec C19.Judge.\nOpen Scope uint63_scope.", shards, timeout=2400)
+        res = coq.run_cases(ctx, "c19", "From Coq Require Import Uint63.\nFrom SwayV Require Import Base.Util C16.Model C16.Judge C19.Model C19.Spec C19.Comments C19.Judge.\nOpen Scope uint63_scope.", shards, timeout=2400)
     except RuntimeError as e:
         ctx.violation("judge-eval", {"log": str(e)[-3000:]}, "C19 judge could not be evaluated", no_input=True)
         return
@@ -153,9 +153,14 @@ def run(ctx):
             ctx.violation("judge-eval", {"shard": k}, "C19 judge returned a wrong number of results", no_input=True)
             return
         for i, c in zip(assign[k], got):
-            codes[i] = (int(c[0]), int(c[1]))
+            codes[i] = (int(c[0]), int(c[1]), int(c[2]))
     hist, per_variant = {}, {}
-    for (origin, var, b), r, (c, idx) in zip(cases, rows, codes):
+    cmh, cmbad = {}, []
+    CM = {0: "equal-wellformed", 1: "differ", 2: "equal-not-wellformed", 3: "no-map"}
+    for (origin, var, b), r, (c, idx, cmc) in zip(cases, rows, codes):
+        cmh[CM[cmc]] = cmh.get(CM[cmc], 0) + 1
+        if cmc in (1, 2) and len(cmbad) < 5:
+            cmbad.append((key_of(b), {"file": origin, "variant": var, "input_hex": b.hex()[:6000], "real_cmap": r[9][:1000], "code": CM[cmc]}))
         hist[CODES[c]] = hist.get(CODES[c], 0) + 1
         per_variant.setdefault(var, {}).setdefault(CODES[c], 0)
         per_variant[var][CODES[c]] += 1
@@ -164,6 +169,9 @@ def run(ctx):
             ctx.violation(key_of(b), {"file": origin, "variant": var, "input_hex": b.hex() if len(b) < 6000 else None,
                                       "formatted": outb.decode("utf-8", "replace")[:3000], "first_diff_token_index": idx},
                           "%s variant=%s: %s" % (origin, var, CODES[c]))
+    for key, rep in cmbad:
+        ctx.violation(key, dict(rep, correspondence="C19.corr/comment_map_exact"),
+                      "the real CommentMap::from_src differs from the model (comments of the lexed stream in source order) or is not well-formed: C19_comments_partition no longer tied to the code", no_input=True)
     if not ok:
         ctx.violation("proof", {"theorems": [o for o in ctx.obligations if not o[1]], "log": out[-2000:]}, "C19 proofs do not check", no_input=True)
     ctx.coverage.update({
@@ -171,7 +179,7 @@ def run(ctx):
         "evaluations": len(cases), "distinct_nontrivial": len({b for _, _, b in cases if len(b) >= 16}),
         "rule": "distinct by content, at least 16 bytes; repository .sw files (quick: 450 sampled; <= %d bytes) as they are and with comments inserted deterministically after every 5th (thorough: also every 3rd) `; { } , ( )` boundary outside strings/comments, alternately `// cN` and `/* cN */`; plus a regression corpus" % SIZE_CAP,
         "samples": [{"file": o, "variant": v, "verdict": CODES[c[0]]} for (o, v, _), c in list(zip(cases, codes))[ncorpus:ncorpus + 6]],
-        "verdicts": hist, "verdicts_per_variant": per_variant, "comments_inserted": ncomments,
+        "verdicts": hist, "comment_map_correspondence": cmh, "verdicts_per_variant": per_variant, "comments_inserted": ncomments,
         "checker_cmd": "make -C coq C19/Props.vo C19/Judge.vo + coqc vm_compute judge over harness output",
         "trusted_base": ["Coq kernel + vm_compute", "harness c19.rs/c16.rs", "props/c19.py (variants)", "the real lexer's streams are used for both texts (tied to the model by C16)"],
     })
